@@ -15,8 +15,13 @@ import json
 import os
 from concurrent.futures import ThreadPoolExecutor
 
+import sys
+
 import vlib
-from vlib import Report, coq_prove, cargo_build, run_bin, coq_eval
+from vlib import Report, coq_prove, cargo_build, run_bin, coq_eval, gen_if_changed
+
+sys.path.insert(0, os.path.join(vlib.VERIF, "translators"))
+import stack_flags as stack_tr  # noqa: E402
 
 NT = 3          # targets app / other / db
 NCS = 15        # callsites per kind
@@ -424,6 +429,11 @@ class Oracle:
             want_par = None
         if d["par"] != want_par:
             self.bad("parent", "op %d: layer %d saw parent()=%s inside %s, expected %s" % (i, rec["n"], d["par"], d["w"], want_par))
+        # navigating on from the spans the scope yielded must stay inside the layer's own accepted spans
+        want_nav = [[want_scope[j + 1] if j + 1 < len(want_scope) else None, want_scope[j:]] for j in range(len(want_scope))]
+        if d.get("nav", []) != want_nav:
+            self.bad("scope-nav", "op %d: layer %d navigating from the scope elements inside %s got (parent, scope) = %s, its own accepted spans give %s"
+                     % (i, rec["n"], d["w"], d.get("nav"), want_nav))
 
     # -- protocol bookkeeping for the F3 attribution -------------------------------------------------
     def passes(self, obs):
@@ -530,11 +540,11 @@ class Oracle:
                             if self.taint.get(k):
                                 self.spans[sid]["acc"][k] = False      # the layer never saw the span: follow-ups follow that fate
                 elif m["level"] > self.hint and not obs and self.pair_over_registry:
-                    # F30's exact shape: the macro guard dropped the emission (no call reached the collector) because the stack's
+                    # F81's exact shape: the macro guard dropped the emission (no call reached the collector) because the stack's
                     # max-level hint is below its level, and the layer added directly to the Registry contains an `and_then` pair
-                    self.stats["f30"] = self.stats.get("f30", 0) + 1
+                    self.stats["f81"] = self.stats.get("f81", 0) + 1
                     self.bad("miss", "op %d: layer %d (filters %s) missed callsite %d (level %d): the stack's max-level hint is %d" % (
-                        i, rec["n"], rec["chain"], cs, m["level"], self.hint), "F30")
+                        i, rec["n"], rec["chain"], cs, m["level"], self.hint), "F81")
                     if sid is not None:
                         pass
                 else:
@@ -641,9 +651,10 @@ INT = {"INever": 0, "ISometimes": 1, "IAlways": 2}
 def model_obs_to_json(o):
     tag = o[0] if isinstance(o, tuple) else o
     if tag == "ODeliver":
-        _, name, w, cur, scope, par = o
+        _, name, w, cur, scope, par, nav = o
         unopt = lambda x: None if x is None else x[1]
-        return {"d": name, "w": WHATS[w[0]], "x": w[1], "cur": unopt(cur), "scope": list(scope), "par": unopt(par)}
+        return {"d": name, "w": WHATS[w[0]], "x": w[1], "cur": unopt(cur), "scope": list(scope), "par": unopt(par),
+                "nav": [[unopt(p), list(s)] for p, s in nav]}
     if tag == "OFEval":
         return {"fe": o[1], "r": o[2]}
     if tag == "OResult":
@@ -707,6 +718,10 @@ def run(ctx):
         "fewer than 64 per-layer filters; reload around a Filtered excluded (documented restriction)",
         "user closures are pure; Targets directives use the three pool targets, none a prefix of another (directive matching is C11)",
         "one dispatcher per process; span handles are used only while alive (tracing's Span API guarantees it)"]
+    # ---- leg B1: translator (which type Layered::new compares with Registry: finding F81 / its repair)
+    text, unrec = stack_tr.main(ctx.repo, None)
+    gen_if_changed(os.path.join(vlib.COQ, "gen", "Gen_stack.v"), text)
+    rep.tie("translator:Gen_stack", not unrec, "; ".join(unrec[:3]), unrec[:1] or None)
     # ---- leg A
     rep.proof = coq_prove(ctx, "C07", ["theories/Properties/C07.vo", "theories/Stack/Harness.vo"])
     # ---- cases
